@@ -504,4 +504,27 @@ def CIter.next (env : Env) (tables : List Table) (s : CIter) : Option CIter :=
 def CIter.key (s : CIter) : Option Bytes := s.cur.map (·.key)
 def CIter.val (s : CIter) : Option Bytes := s.cur.map (·.val)
 
+/-- `for ; s.Valid(); s.Next()` over a `ConcatIterator`, collecting decoded entries. -/
+def CIter.scan (env : Env) (tables : List Table) : Nat → CIter → Option (List Entry)
+  | 0, _ => some []
+  | fuel + 1, s =>
+    if s.valid then
+      match s.cur with
+      | none => none
+      | some it =>
+        (decodeVS it.val).bind fun v =>
+        (s.next env tables).bind fun s' =>
+        (CIter.scan env tables fuel s').bind fun rest => some (⟨it.key, v⟩ :: rest)
+    else some []
+
+/-- `it := NewConcatIterator(tables, opt); for it.Rewind(); it.Valid(); it.Next() { … }` -/
+def concatEntries (env : Env) (tables : List Table) (reversed : Bool) (fuel : Nat) : Option (List Entry) :=
+  ((newConcat tables reversed).rewind env tables).bind (CIter.scan env tables fuel)
+
+/-- The entry under the concat iterator, `none` when it is not valid. -/
+def CIter.entry? (s : CIter) : Option Entry :=
+  match s.cur with
+  | none => none
+  | some it => it.entry?
+
 end Badger.Tbl
